@@ -175,6 +175,11 @@ func packZip(
 		return api.WareID{}, err
 	}
 
+	// If the filters ejected every entry -- the root itself included -- there is no fileset left to hash.
+	if bucket.Length() == 0 {
+		return api.WareID{}, Errorf(rio.ErrFilterRejection, "filters eject every entry of this fileset, including its root")
+	}
+
 	// Hash the thing!
 	hash := fshash.HashBucket(bucket, sha512.New384)
 	return api.WareID{"zip", misc.Base58Encode(hash)}, nil
